@@ -301,7 +301,7 @@ class _Expr(SymEval):
         if numeric(a) and numeric(b):
             import operator
 
-            ops = {ast.Add: operator.add, ast.Sub: operator.sub, ast.Mult: operator.mul, ast.Div: operator.truediv, ast.FloorDiv: operator.floordiv, ast.Mod: operator.mod, ast.Pow: operator.pow}
+            ops = {ast.Add: operator.add, ast.Sub: operator.sub, ast.Mult: operator.mul, ast.Div: operator.truediv, ast.FloorDiv: operator.floordiv, ast.Mod: operator.mod, ast.Pow: operator.pow, ast.MatMult: operator.matmul}
             fn = ops.get(type(n.op))
             if fn is None:
                 raise NotSymbolic(f"operator {type(n.op).__name__}")
@@ -768,7 +768,7 @@ class _Expr(SymEval):
                 cstub = getattr(self.owner, "stubs", {}).get(ci.qualname)
                 if cstub is not None:
                     return cstub(args, kw)
-                if not names and "__init__" in ci.methods and not any(isinstance(b_, ast.Name) and b_.id.endswith(("Error", "Exception", "Warning")) for b_ in ci.node.bases) and not ci.node.bases:
+                if "__init__" in ci.methods and not ci.node.bases and not ci.node.decorator_list:
                     # a plain class of the package with its own constructor (no base class): the constructor is run
                     inst = Rec(ci)
                     self.owner.call_method(inst, "__init__", args, kw)
